@@ -371,6 +371,26 @@ fn gen_boundary(rng: &mut Rng) -> String {
 }
 
 fn gen_near_valid(rng: &mut Rng) -> String {
+    if rng.chance(1, 14) {
+        // an over-long leading group that is only zero padding (`0001,234`): the group count is a
+        // count of digits, not a bound on the value
+        let mut s = String::new();
+        if rng.chance(1, 4) {
+            s.push('-');
+        }
+        for _ in 0..1 + rng.usize(3) {
+            s.push('0');
+        }
+        let lead = rng.below(1000);
+        s.push_str(&format!("{:03}", lead));
+        for _ in 0..1 + rng.usize(2) {
+            s.push_str(&format!(",{:03}", rng.below(1000)));
+        }
+        if rng.chance(1, 3) {
+            s.push_str(&format!(".{:02}", rng.below(100)));
+        }
+        return s;
+    }
     if rng.chance(1, 5) {
         let v = gen_boundary(rng);
         return if rng.chance(1, 6) { mutate(rng, &v) } else { v };
